@@ -404,7 +404,14 @@ def call(ip, name, args, kw):
         n = len(a)
         k = int(S(sh)) % n if n else 0
         return to_obj_array(list(a[n - k:]) + list(a[:n - k]))
-    if name == "tile" or name == "repeat":
+    if name == "repeat":
+        a = to_obj_array(args[0])
+        reps = kw.get("repeats", args[1] if len(args) > 1 else None)
+        ax = kw.get("axis", args[2] if len(args) > 2 else None)
+        if reps is None or not is_static_int(reps) or ax is None:
+            raise OutsideFragment("np.repeat (only a literal repeat count along a given axis)")
+        return np.repeat(a, as_int(reps), axis=as_int(ax))
+    if name == "tile":
         raise OutsideFragment(f"np.{name}")
     raise OutsideFragment(f"np.{name}")
 
